@@ -3766,6 +3766,118 @@ Proof.
   - intros u t Iu Hu. apply K; auto. apply incl_appr. auto.
 Qed.
 
+(* ------------------------------------------------------------------ (x[p] = d) f= e : the read with a default *)
+Lemma split_last_none {A} (l : list A) : split_last l = None -> l = [].
+Proof. destruct l; simpl; auto. destruct (split_last l) as [[? ?]|]; discriminate. Qed.
+
+Lemma m_read_wd_ok h v t p d R F h' r :
+  Inv h (R ++ F) -> incl (handles v) R -> repr h v t -> m_read_wd h v p d = (h', r) ->
+  match r with
+  | Some e => exists te, v_get_wd t p d = Some te /\ repr h' e te /\ Step h R F h' (handles e ++ R)
+  | None => v_get_wd t p d = None /\ Step h R F h' R
+  end /\ (forall w tt, incl (handles w) (R ++ F) -> repr h w tt -> repr h' w tt).
+Proof.
+  intros I Iv Hr E. unfold m_read_wd in E. unfold v_get_wd.
+  assert (Iv' : forall hh, incl (handles v) (R ++ handles_heap hh)) by (intro; apply incl_appl; auto).
+  destruct (split_last p) as [[pre last]|] eqn:SL.
+  2: { apply split_last_none in SL. subst p.
+       destruct (m_read_ok h v t [] R F h' r I (Iv' h) Hr E) as [A K]. split; auto. }
+  destruct (m_read h v pre) as [h1 [c|]] eqn:E1.
+  2: { destruct (m_read_ok h v t pre R F h1 None I (Iv' h) Hr E1) as [[Hg S1] K1]. inversion E; subst. rewrite Hg.
+       split; [split; auto | exact K1]. }
+  destruct (m_read_ok h v t pre R F h1 (Some c) I (Iv' h) Hr E1) as [[tc [Hg [Hc S1]]] K1]. rewrite Hg.
+  assert (I1 : Inv h1 ((handles c ++ R) ++ F)) by apply S1.
+  destruct (drop_val_keep h1 c R F I1) as [S2 K2].
+  cbv zeta in E. remember (drop_val h1 c) as h2 eqn:Eh2. clear Eh2.
+  assert (S12 : Step h R F h2 R) by (eapply Step_trans; eauto).
+  assert (K12 : forall w tt, incl (handles w) (R ++ F) -> repr h w tt -> repr h2 w tt) by (intros; apply K2; auto).
+  assert (I2 : Inv h2 (R ++ F)) by apply S2.
+  assert (Hr2 : repr h2 v t) by (apply K12; auto; apply incl_appl; auto).
+  assert (FAIL : forall o, o = None -> (h2, @None hval) = (h', r) ->
+          match r with
+          | Some e => exists te, o = Some te /\ repr h' e te /\ Step h R F h' (handles e ++ R)
+          | None => o = None /\ Step h R F h' R
+          end /\ (forall w tt, incl (handles w) (R ++ F) -> repr h w tt -> repr h' w tt)).
+  { intros o Eo E2. inversion E2; subst h' r. split; [split; auto | exact K12]. }
+  destruct c as [|z|l dd|sid fs].
+  - inversion Hc; subst. apply FAIL; auto.
+  - inversion Hc; subst. apply FAIL; auto.
+  - destruct (repr_ref_inv_gen _ _ _ _ Hc) as [cl [its [dv [Et [Hcl [Hits Hd]]]]]]. subst tc.
+    destruct dd as [dd|]; inversion Hd; subst.
+    { apply FAIL; auto. destruct (ckind cl); reflexivity. }
+    rewrite Hcl in E.
+    destruct (ckind cl) eqn:KC; try (apply FAIL; auto; fail).
+    destruct (key_of_pelem last) as [k|]; [|apply FAIL; auto].
+    rewrite (repr_items_find_key _ _ _ k Hits) in E.
+    destruct (find_key k its) as [n|].
+    + destruct (m_read_ok h2 v t p R F h' r I2 (Iv' h2) Hr2 E) as [A K3]. split.
+      * destruct r as [e|].
+        -- destruct A as [te [G1 [G2 S3]]]. exists te. split; auto. split; auto. eapply Step_trans; eauto.
+        -- destruct A as [G1 S3]. split; auto. eapply Step_trans; eauto.
+      * intros w tt Iw Hw. apply K3; auto.
+    + destruct (alloc_val h2 d) as [h3 rv] eqn:EA. inversion E; subst h' r.
+      destruct (alloc_val_ok d h2 R F h3 rv I2 EA) as [Hrv [S3 B3]]. split.
+      * exists d. split; auto. split; auto. eapply Step_trans; eauto.
+      * intros w tt Iw Hw. eapply repr_ext; [exact B3|]. apply K12; auto.
+  - inversion Hc; subst. apply FAIL; auto.
+Qed.
+
+Opaque alloc.
+Lemma exec_opdef_g x p d f e : noslice p = true -> bfrag f = true -> efrag e = true ->
+  forall h rs sg st' ok G,
+  Inv h (handles_list rs ++ G) -> repr_list h rs sg ->
+  m_exec_s (mkst h rs) (SOpDef x p d f e) = (st', ok) ->
+  exists sg', exec_s sg (SOpDef x p d f e) = (sg', ok) /\
+    Inv (mheap st') (handles_list (roots st') ++ G) /\ Sim st' sg' /\
+    (forall u t, incl (handles u) G -> repr h u t -> repr (mheap st') u t).
+Proof.
+  intros NS BF FE h rs sg st' ok G I Hrs E. simpl in E. simpl.
+  destruct (nth_error rs x) as [cur|] eqn:Ex.
+  2: { inversion E; subst. rewrite (repr_list_nth_none _ _ _ _ Hrs Ex). eexists; split; [reflexivity|].
+       split; [exact I|]. split; [exact Hrs|]. auto. }
+  destruct (repr_list_nth _ _ _ _ _ Hrs Ex) as [tcur [Htc Hcur]]. rewrite Htc.
+  assert (Icur : incl (handles cur) (handles_list rs)) by (eapply handles_list_nth; eauto).
+  destruct (m_read_wd h cur p d) as [h1 [old|]] eqn:ER.
+  2: { destruct (m_read_wd_ok h cur tcur p d (handles_list rs) G h1 None I Icur Hcur ER) as [[Hg S1] K1].
+       inversion E; subst. rewrite Hg. eexists; split; [reflexivity|]. apply keep_roots; auto. }
+  destruct (m_read_wd_ok h cur tcur p d (handles_list rs) G h1 (Some old) I Icur Hcur ER) as [[told [Hg [Hold S1]]] K1].
+  rewrite Hg.
+  assert (Hrs1 : repr_list h1 rs sg).
+  { apply repr_list_as_inst. apply K1. rewrite handles_inst. apply incl_appl, incl_refl. apply repr_list_as_inst; auto. }
+  assert (K1G : forall u t, incl (handles u) G -> repr h u t -> repr h1 u t).
+  { intros u t Iu Hu. apply K1; auto. apply incl_appr; auto. }
+  assert (I1 : Inv h1 (handles_list rs ++ handles old ++ G)).
+  { eapply Inv_equiv; [|apply S1]. occ_tac. }
+  destruct (m_eval rs h1 e) as [h2 [w|]] eqn:EE.
+  2: { destruct (m_eval_ok e FE rs h1 (handles old ++ G) sg h2 None I1 Hrs1 EE) as [[Ev S2] K2].
+       rewrite Ev. inversion E; subst; clear E.
+       assert (I2 : Inv h2 ((handles old ++ handles_list rs) ++ G)).
+       { eapply Inv_equiv; [|apply S2]. occ_tac. }
+       destruct (drop_val_keep h2 old (handles_list rs) G I2) as [S3 K3].
+       eexists; split; [reflexivity|]. simpl. split; [apply S3|]. split.
+       - unfold Sim. simpl. apply repr_list_as_inst. apply K3. rewrite handles_inst. apply incl_appl, incl_refl.
+         apply K2. rewrite handles_inst. apply incl_appl, incl_refl. apply repr_list_as_inst; auto.
+       - intros u t Iu Hu. apply K3. apply incl_appr; auto. apply K2. apply incl_appr, incl_appr; auto. apply K1G; auto. }
+  destruct (m_eval_ok e FE rs h1 (handles old ++ G) sg h2 (Some w) I1 Hrs1 EE) as [[tw [Ev [Hw S2]]] K2].
+  rewrite Ev.
+  assert (Hrs2 : repr_list h2 rs sg).
+  { apply repr_list_as_inst. apply K2. rewrite handles_inst. apply incl_appl, incl_refl. apply repr_list_as_inst; auto. }
+  assert (Hold2 : repr h2 old told) by (apply K2; auto; apply incl_appr, incl_appl, incl_refl).
+  assert (K2G : forall u t, incl (handles u) G -> repr h1 u t -> repr h2 u t).
+  { intros u t Iu Hu. apply K2; auto. apply incl_appr, incl_appr; auto. }
+  destruct (m_opassign p f h2 cur old w) as [[h3 cur'] ok1] eqn:EO. inversion E; subst; clear E.
+  assert (I2 : Inv h2 ((handles cur ++ handles old ++ handles w) ++ handles_list (set_root rs x HNull) ++ G)).
+  { eapply Inv_equiv; [|apply S2]. intro l. pose proof (roots_split x rs cur Ex l). revert H. occ_tac. }
+  assert (Hcur2 : repr h2 cur tcur).
+  { destruct (repr_list_nth _ _ _ _ _ Hrs2 Ex) as [tc2 [Htc2 Hc2]]. rewrite Htc in Htc2. inversion Htc2; subst. auto. }
+  destruct (m_opassign_old_ok p f NS BF h2 cur tcur old told w tw _ h3 cur' ok I2 Hcur2 Hold2 Hw EO) as [t' [Ev2 [Hr' S3]]].
+  rewrite Ev2. eexists; split; [reflexivity|].
+  assert (S3' : Step h2 (handles cur ++ handles old ++ handles w) (handles_list (set_root rs x HNull) ++ G) h3 ([] ++ handles cur')) by exact S3.
+  destruct (root_update_g h2 rs sg x cur h3 cur' t' _ [] G Ex Hrs2 S3' Hr') as [I3 [Hrs3 K3]].
+  simpl. split; [exact I3|]. split; [exact Hrs3|]. intros u t Iu Hu. apply K3; auto.
+Qed.
+Transparent alloc.
+
 Lemma incl_app_mid' (a b g : list loc) : incl (a ++ g) (a ++ b ++ g).
 Proof. intros x Hx. apply in_app_or in Hx. apply in_or_app. destruct Hx; [left; auto | right; apply in_or_app; right; auto]. Qed.
 
@@ -3878,6 +3990,7 @@ Definition sfrag (s : sstmt) : bool :=
   | SSwap x p y q => noslice p && noslice q
   | SEvery x p e => efrag e
   | SOpMod x p f wrap y m => noslice p && bfrag f && is_modlop m
+  | SOpDef x p d f e => noslice p && bfrag f && efrag e
   end.
 
 Lemma m_exec_s_ok s : sfrag s = true -> forall st sg st' ok,
@@ -3918,6 +4031,11 @@ Proof.
     apply andb_prop in FR. destruct FR as [FR HM]. apply andb_prop in FR. destruct FR as [NS BF].
     assert (I0 : Inv h (handles_list rs ++ [])) by (rewrite app_nil_r; auto).
     destruct (exec_opmod_g x p f wrap y m NS BF HM h rs sg st' ok [] I0 Hs E) as [sg' [Ev [I1 [Hs1 _]]]].
+    exists sg'. split; auto. split; auto. unfold StInv. rewrite app_nil_r in I1. auto.
+  - (* (x[p] = d) f= e *)
+    apply andb_prop in FR. destruct FR as [FR FE]. apply andb_prop in FR. destruct FR as [NS BF].
+    assert (I0 : Inv h (handles_list rs ++ [])) by (rewrite app_nil_r; auto).
+    destruct (exec_opdef_g x p d f e NS BF FE h rs sg st' ok [] I0 Hs E) as [sg' [Ev [I1 [Hs1 _]]]].
     exists sg'. split; auto. split; auto. unfold StInv. rewrite app_nil_r in I1. auto.
 Qed.
 
